@@ -183,12 +183,18 @@ def main_fanout(args) -> int:
             known_cases.setdefault(c, v)
         for c, v in r["exhaustive_subdomains"].items():
             exhaustive[c] = exhaustive.get(c, 0) + v
-        if len(samples) < 10:
-            samples.extend(r["samples"][: max(1, 10 // max(1, len(results)))])
+        samples.extend(r["samples"])
         violations.extend(r["violations"])
         notes.extend(r["notes"])
         budget_exhausted = budget_exhausted or r["budget_exhausted"]
-    samples = samples[:10]
+    by_part: dict[str, list] = {}
+    for smp in samples:
+        by_part.setdefault(smp.get("part", "") if isinstance(smp, dict) else "", []).append(smp)
+    samples = []
+    while len(samples) < 10 and any(by_part.values()):
+        for part in sorted(by_part):
+            if by_part[part] and len(samples) < 10:
+                samples.append(by_part[part].pop(0))
     if not samples:
         samples = [{"note": "no non-trivial case recorded"}]
     wall = time.time() - t0
